@@ -127,6 +127,41 @@ def start (q : Q) (hnew : Nat) (priNew : Rat) (hme : Nat) (pri : Rat) : Q :=
 
 end compound
 
+/-! ### queue histories (for `each_runs_once`) -/
+
+/-- one queue-level event of a schedule: what tasks, callbacks and the loop do to the queue -/
+inductive QEv where
+  | append (h : Nat)              -- call_soon / queue_insert of a handle
+  | insertPos (p h : Nat)         -- queue_insert_pos
+  | callPos (p h : Nat)           -- call_pos
+  | findRm (key : Nat → Bool)     -- queue_find(key, remove=True)
+  | remove (h : Nat)              -- queue_remove
+  | popleft                       -- the loop runs the next handle
+
+/-- queue + everything ever put into it (`ins`) + everything that came out (`out`: run by the
+    loop, or taken out by an explicit remove) -/
+structure Hist (Q : Type) where
+  q : Q
+  ins : List Nat := []
+  out : List Nat := []
+
+def stepEv {Q : Type} (O : QOps Q) (s : Hist Q) : QEv → Hist Q
+  | .append h => { s with q := O.append s.q 0 h, ins := h :: s.ins }
+  | .insertPos p h => { s with q := O.insertPos s.q p h, ins := h :: s.ins }
+  | .callPos p h => { s with q := O.callPos s.q p h, ins := h :: s.ins }
+  | .findRm key =>
+    match O.find s.q key true with
+    | (some h, q') => { s with q := q', out := h :: s.out }
+    | (none, _) => s
+  | .remove h =>
+    match O.remove s.q h with
+    | some q' => { s with q := q', out := h :: s.out }
+    | none => s
+  | .popleft =>
+    match O.popleft s.q with
+    | some (h, q') => { s with q := q', out := h :: s.out }
+    | none => s
+
 /-! ### program interpreter (correspondence only) -/
 
 inductive Op where
